@@ -319,7 +319,8 @@ var stuck = 0
 const maxStuck = 3
 
 // drain runs the iterator against the consumer that declines at its k-th call (k = 0: never).
-func drain[T any](it ociregistry.Seq[T], k int, show func(T) string, isZero func(T) bool) []entry {
+// mk makes the listing call itself (ociunify drains its members inside that call already).
+func drain[T any](mk func() ociregistry.Seq[T], k int, show func(T) string, isZero func(T) bool) []entry {
 	var mu sync.Mutex
 	var log []entry
 	abandoned := false
@@ -328,7 +329,7 @@ func drain[T any](it ociregistry.Seq[T], k int, show func(T) string, isZero func
 		defer close(done)
 		n := 0
 		panicked, pv := hx.Recover(func() {
-			it(func(x T, err error) bool {
+			mk()(func(x T, err error) bool {
 				mu.Lock()
 				defer mu.Unlock()
 				if abandoned {
@@ -377,11 +378,13 @@ func runQuery(r ociregistry.Interface, q queryDesc, start string, k int) []entry
 	ctx := context.Background()
 	switch q.Kind {
 	case "repos":
-		return drain(r.Repositories(ctx, start), k, func(s string) string { return s }, func(s string) bool { return s == "" })
+		return drain(func() ociregistry.Seq[string] { return r.Repositories(ctx, start) }, k, func(s string) string { return s }, func(s string) bool { return s == "" })
 	case "tags":
-		return drain(r.Tags(ctx, q.Repo, start), k, func(s string) string { return s }, func(s string) bool { return s == "" })
+		return drain(func() ociregistry.Seq[string] { return r.Tags(ctx, q.Repo, start) }, k, func(s string) string { return s }, func(s string) bool { return s == "" })
 	case "refs":
-		return drain(r.Referrers(ctx, q.Repo, ociregistry.Digest(theSubject), ""), k,
+		return drain(func() ociregistry.Seq[ociregistry.Descriptor] {
+			return r.Referrers(ctx, q.Repo, ociregistry.Digest(theSubject), "")
+		}, k,
 			func(d ociregistry.Descriptor) string { return string(d.Digest) },
 			func(d ociregistry.Descriptor) bool {
 				return d.Digest == "" && d.Size == 0 && d.MediaType == "" && d.ArtifactType == "" && len(d.Annotations) == 0
